@@ -264,7 +264,26 @@ def concrete_playback(scratch, g, harness, env, log):
     if not m:
         return {"failing_input": None, "how_to_replay": "kani printed no concrete playback test", "replay_native": {"tail": p.stdout[-1500:]}}
     test = m.group(1)
+    native = {}
+    try:
+        # run the concrete test natively against the real functions of the scratch copy
+        tname = re.search(r"fn (kani_concrete_playback_\w+)", test).group(1)
+        for rel, modfile in g.get("modules", {}).items():
+            if not modfile:
+                continue
+            pth = os.path.join(scratch, rel)
+            txt = open(pth).read().rstrip()
+            if txt.endswith("}"):
+                open(pth, "w").write(txt[:-1] + "\n" + test + "\n}\n")
+            break
+        pc = ["cargo", "kani", "playback", "-p", g["crate"], "-Z", "concrete-playback", "--", tname]
+        pp = subprocess.run(pc, cwd=scratch, env=dict(env, CARGO_TARGET_DIR=KANI_TARGET + "_playback"), stdout=subprocess.PIPE, stderr=subprocess.STDOUT, text=True, timeout=g.get("playback_timeout", 900))
+        reproduced = ("panicked" in pp.stdout) or ("test result: FAILED" in pp.stdout)
+        panic = re.search(r"panicked at ([^\n]*)\n([^\n]*)", pp.stdout)
+        native = {"cmd": " ".join(pc), "reproduced_natively": reproduced, "panic": (panic.group(0)[:400] if panic else None), "rc": pp.returncode}
+    except Exception as e:
+        native = {"error": repr(e)}
     vals = re.findall(r"//\s*(.+)\n\s*vec!\[([^\]]*)\]", test)
     concrete = "; ".join("%s = bytes[%s]" % (a.strip(), b.strip()) for a, b in vals)[:1500] or test[:1500]
-    return {"failing_input": concrete, "replay_native": {"kani_playback_test": test[:6000]},
+    return {"failing_input": concrete, "replay_native": dict(native, kani_playback_test=test[:6000]),
             "how_to_replay": "paste the generated #[test] into the module appended by /verif (%s) and run `cargo kani playback -Z concrete-playback --test <name>` in a scratch copy" % ", ".join(g.get("modules", {}).values())}
